@@ -372,7 +372,7 @@ class Check:
             for i, (key, what, replay) in enumerate(self.failures[:3]):
                 path = os.path.join(WORK, "replay", "%s-%d-%d.json" % (self.id, int(self.t0), i))
                 with open(path, "w") as f:
-                    json.dump({"property": self.id, "key": key, "what": what, "replay": replay,
+                    json.dump({"property": self.id, "seed": self.seed, "tier": self.tier, "key": key, "what": what, "replay": replay,
                                "broken": [list(b) for b in self.broken]}, f, indent=1)
                 lines.append("VIOLATION property=%s replay=%s" % (self.id, path))
                 log("  failing input: " + what[:600])
@@ -380,7 +380,7 @@ class Check:
             rc = 1
             path = os.path.join(WORK, "replay", "%s-%d-broken.json" % (self.id, int(self.t0)))
             with open(path, "w") as f:
-                json.dump({"property": self.id, "no_failing_input_found": True,
+                json.dump({"property": self.id, "seed": self.seed, "tier": self.tier, "no_failing_input_found": True,
                            "no_longer_checks": [{"name": n, "detail": d} for n, d in self.broken]}, f, indent=1)
             for n, d in self.broken[:5]:
                 log("  no longer checks: %s: %s" % (n, d[:600]))
@@ -392,8 +392,10 @@ class Check:
         }
         ev["coverage"]["known_findings_reproduced"] = sorted(self.known_hit)
         ev["coverage"]["notes"] = self.notes
-        os.makedirs(os.path.join(VERIF, "evidence"), exist_ok=True)
-        with open(os.path.join(VERIF, "evidence", self.id + ".json"), "w") as f:
+        # (maintenance runs against a patched /repo - bin/seedtest, bin/seedall - set VERIF_EVIDENCE_DIR so that they never touch evidence/)
+        evdir = os.environ.get("VERIF_EVIDENCE_DIR") or os.path.join(VERIF, "evidence")
+        os.makedirs(evdir, exist_ok=True)
+        with open(os.path.join(evdir, self.id + ".json"), "w") as f:
             json.dump(ev, f, indent=1, sort_keys=True)
         for l in lines:
             print(l)
